@@ -1595,7 +1595,8 @@ class LogicalFile:
                             eflr_item.origin_reference = o.origin_reference
 
             # Not enlisted in the sets. See Issue #
-            self.file_header_item.origin_reference = o.origin_reference
+            if self.file_header_item.origin_reference is None:
+                self.file_header_item.origin_reference = o.origin_reference
 
         return o
 
